@@ -30,6 +30,7 @@ type Obs struct {
 	waiting  []*waiter
 	exiting  []*waiter // bodies that logged their end and wait to leave together
 	Burst    bool      // hold bodies after their end event and let them go all at once
+	Silent   bool      // record nothing and never synchronise (race-detector runs: the observer must not order the bodies)
 	active   int       // bodies that logged start and not yet end
 	Gated    bool
 	Quiet    time.Duration
@@ -45,6 +46,9 @@ func New(gated bool, quiet time.Duration, seed int64) *Obs {
 
 // Emit appends an event under the global mutex.
 func (o *Obs) Emit(e Event) {
+	if o.Silent {
+		return
+	}
 	o.mu.Lock()
 	o.events = append(o.events, e)
 	o.last = time.Now()
@@ -54,6 +58,9 @@ func (o *Obs) Emit(e Event) {
 // EmitStart logs a start event, counts the body as active and (when gated)
 // blocks until the controller opens the gate.
 func (o *Obs) EmitStart(e Event, name string) {
+	if o.Silent {
+		return
+	}
 	o.mu.Lock()
 	o.events = append(o.events, e)
 	o.last = time.Now()
@@ -75,6 +82,9 @@ func (o *Obs) EmitStart(e Event, name string) {
 // The logged end is never later than the real end, so no barrier that the
 // code respects can appear broken in the log.
 func (o *Obs) EmitEnd(e Event) {
+	if o.Silent {
+		return
+	}
 	o.mu.Lock()
 	o.events = append(o.events, e)
 	o.last = time.Now()
@@ -91,6 +101,9 @@ func (o *Obs) EmitEnd(e Event) {
 
 // Hold blocks the caller on a gate without logging start/end bookkeeping.
 func (o *Obs) Hold(e Event, name string) {
+	if o.Silent {
+		return
+	}
 	o.mu.Lock()
 	o.events = append(o.events, e)
 	o.last = time.Now()
@@ -106,6 +119,9 @@ func (o *Obs) Hold(e Event, name string) {
 
 // Park blocks the caller on a gate without logging anything (a pure yield point).
 func (o *Obs) Park(name string) {
+	if o.Silent {
+		return
+	}
 	o.mu.Lock()
 	if !o.Gated {
 		o.mu.Unlock()
